@@ -22,6 +22,18 @@ static std::string round_case(const uint8_t st[16], const uint8_t key[16]) {
 	return "";
 }
 
+// all 2x4x256 T-table entries against S-box o MixColumns columns; "" if all agree
+static std::string table_check(uint64_t* n) {
+	for (int t = 0; t < 4; ++t) for (int x = 0; x < 256; ++x) {
+		uint8_t s[16] = { 0 }; s[t] = spec::aes_sbox((uint8_t)x); spec::aes_mix_columns(s); uint32_t e; memcpy(&e, s, 4);
+		uint8_t q[16] = { 0 }; q[t] = spec::aes_inv_sbox((uint8_t)x); spec::aes_inv_mix_columns(q); uint32_t dd; memcpy(&dd, q, 4);
+		if (n) *n += 2;
+		if (randomx_aes_lut_enc[t][x] != e) return "randomx_aes_lut_enc[" + std::to_string(t) + "][" + std::to_string(x) + "] != MixColumns(S-box) column";
+		if (randomx_aes_lut_dec[t][x] != dd) return "randomx_aes_lut_dec[" + std::to_string(t) + "][" + std::to_string(x) + "] != InvMixColumns(InvS-box) column";
+	}
+	return "";
+}
+
 static void make_seed(int id, uint8_t s[64]) {
 	memset(s, 0, 64);
 	if (id == 0) return;
@@ -80,7 +92,7 @@ int main(int argc, char** argv) {
 		vf::Json r = vf::Json::load(args.replay); std::string d;
 		if (r.at("kind").s == "round") { auto s = vf::unhex(r.at("state").s), k = vf::unhex(r.at("rkey").s); d = round_case(s.data(), k.data()); }
 		else if (r.at("kind").s == "composite") d = composite_case((int)r.at("seed").num(), (size_t)r.at("size").num(), (int)r.at("buf").num());
-		else d = "table";   // tables are checked in-line; replay by rerunning
+		else d = table_check(nullptr);
 		printf("replay: %s\n", d.empty() ? "agrees" : d.c_str()); return d.empty() ? 0 : 1;
 	}
 	// sizes
@@ -112,13 +124,7 @@ int main(int argc, char** argv) {
 				std::string d = round_case(st, key.data()); R.n["round_cases"]++;
 				if (!d.empty()) viol("c12:round", d, vf::Json::obj().set("kind", "round").set("state", vf::hex(st, 16)).set("rkey", vf::hex(key.data(), 16)));
 			}
-			for (int t = 0; t < 4; ++t) for (int x = 0; x < 256; ++x) {
-				uint8_t s[16] = { 0 }; s[t] = spec::aes_sbox((uint8_t)x); spec::aes_mix_columns(s); uint32_t e; memcpy(&e, s, 4);
-				uint8_t q[16] = { 0 }; q[t] = spec::aes_inv_sbox((uint8_t)x); spec::aes_inv_mix_columns(q); uint32_t dd; memcpy(&dd, q, 4);
-				R.n["table_entries"] += 2;
-				if (randomx_aes_lut_enc[t][x] != e) viol("c12:table", "randomx_aes_lut_enc[" + std::to_string(t) + "][" + std::to_string(x) + "] != MixColumns(S-box) column", vf::Json::obj().set("kind", "table"));
-				if (randomx_aes_lut_dec[t][x] != dd) viol("c12:table", "randomx_aes_lut_dec[" + std::to_string(t) + "][" + std::to_string(x) + "] != InvMixColumns(InvS-box) column", vf::Json::obj().set("kind", "table"));
-			}
+			{ uint64_t n = 0; std::string d = table_check(&n); R.n["table_entries"] += n; if (!d.empty()) viol("c12:table", d, vf::Json::obj().set("kind", "table")); }
 			return R;
 		}
 		int cs = shard - 120;   // composite shards
